@@ -665,6 +665,23 @@ struct DurMon {
           ctx.viol("C18", std::string("parse-not-floor:") + nm, std::string(nm) + " sec=" + S(sec) + " text='" + txt + "' ok=" + std::to_string(ok) + " got=" +
                                                                    (ok ? S((i128)out.time_since_epoch().count()) : "-") + " expected=" + S(expc));
       }
+      // the same minute written with a seconds field of 60: denotes the first second of the next minute
+      {
+        i128 s59 = sec - orc::fmod(sec, 60) + 59;
+        if (s59 + 1 > hi || s59 < lo) continue;
+        for (const char* pf : {"%Y-%m-%d %H:%M:%E*S %E*z", "%Y-%m-%d %H:%M:%S %E*z"}) {
+          std::string txt = cctz::detail::format("%Y-%m-%d %H:%M:60 %E*z", mk((int64_t)s59), cctz::detail::femtoseconds(0), utc);
+          cctz::time_point<D> out;
+          ctx.set_case("class=%s op=parse-floor-leap-second sec=%s text=%s", nm, S(s59).c_str(), txt.c_str());
+          bool ok = cctz::parse(pf, txt, utc, &out);
+          i128 expc = orc::fdiv(s59 + 1, num);
+          ctx.stat("C18.evaluations");
+          ctx.stat("C18.coarse_parse_leap_second_cases");
+          if (!ok || (i128)out.time_since_epoch().count() != expc)
+            ctx.viol("C18", std::string("parse-not-floor:leap-second:") + nm, std::string(nm) + " text='" + txt + "' ok=" + std::to_string(ok) + " got=" +
+                                                                                 (ok ? S((i128)out.time_since_epoch().count()) : "-") + " expected=" + S(expc));
+        }
+      }
     }
   }
   void run(sup::Rng& r, long nrand) {
@@ -747,12 +764,12 @@ int main(int argc, char** argv) {
     if (prop == "C07") total = thorough ? 30000000 : 2000000;
     if (prop == "C08") total = thorough ? 20000000 : 2000000;
     if (prop == "C09") total = thorough ? 30000000 : 3000000;
-    if (prop == "C18") total = thorough ? 13 * 5000000L : 13 * 400000L;
+    if (prop == "C18") total = thorough ? 16 * 4000000L : 16 * 320000L;
   }
   long ncases = (total + chunk - 1) / chunk;
   if (prop == "C18") {
     chunk = 20000;
-    ncases = (total / 13 + chunk - 1) / chunk * 13;  // 13 duration types, interleaved
+    ncases = (total / 16 + chunk - 1) / chunk * 16;  // 16 duration types, interleaved
   }
   return sup::supervise(ncases, opt, [&](long c, sup::Ctx& ctx) {
     sup::Rng rng(seed, static_cast<uint64_t>(c) + 31);
@@ -769,7 +786,7 @@ int main(int argc, char** argv) {
     } else {
       using namespace std::chrono;
       long n = chunk;
-      switch (c % 13) {
+      switch (c % 16) {
         case 0: DurMon<duration<int64_t, std::nano>>(ctx, "ns64").run(rng, n); break;
         case 1: DurMon<duration<int64_t, std::micro>>(ctx, "us64").run(rng, n); break;
         case 2: DurMon<duration<int64_t, std::milli>>(ctx, "ms64").run(rng, n); break;
@@ -782,11 +799,14 @@ int main(int argc, char** argv) {
         case 9: DurMon<duration<int16_t, std::ratio<60>>>(ctx, "min16").run(rng, n); break;
         case 10: DurMon<duration<int64_t, std::ratio<1, 3>>>(ctx, "third64").run(rng, n); break;
         case 11: DurMon<duration<int64_t, std::femto>>(ctx, "fs64").run(rng, n); break;
+        case 12: DurMon<duration<int64_t, std::ratio<60>>>(ctx, "min64").run(rng, n); break;
+        case 13: DurMon<duration<int64_t, std::ratio<3600>>>(ctx, "h64").run(rng, n); break;
+        case 14: DurMon<duration<int64_t, std::ratio<7>>>(ctx, "sec7x64").run(rng, n); break;
         default: DurMon<duration<int32_t>>(ctx, "s32").run(rng, n); break;
       }
       ctx.stat("C18.distinct_nontrivial", ctx.distinct_local.size());
       ctx.stat("C18.duration_type_runs");
-      if (c < 13) {
+      if (c < 16) {
         std::chrono::time_point<std::chrono::system_clock, std::chrono::milliseconds> tp{std::chrono::milliseconds(-100)};
         ctx.sample("C18", "format(\"%Y-%m-%d %H:%M:%E*S\", time_point<ms>(-100ms), utc) = " + cctz::format("%Y-%m-%d %H:%M:%E*S", tp, cctz::utc_time_zone()), 1);
       }
